@@ -343,6 +343,8 @@ def spec (caseLine implLine : String) : String :=
       | some why => "FAIL " ++ why
       | none =>
         if ctor.trimAscii.toString = "same" then "ok"
+        else if ctor.trimAscii.toString.startsWith "UNSTABLE" then
+          "FAIL content the same map dispatched again was handed on with different contents: " ++ ctor.take 200
         else "FAIL construction the handler built by NewTagHandlerFromViper and the one built from Filter values disagree: " ++ ctor.take 200
     | _ => s!"FAIL shape {implLine.take 80}"
 
